@@ -109,4 +109,14 @@ CLAIMED['C17'] = {
     'technique': 'contract-based deductive verification (_add_rule by symbolic execution + z3; syntactic information-flow clauses) + bounded metamorphic/corruption oracle',
 }
 
+CLAIMED['C10'] = {
+    'category': 'proof',
+    'text': 'evaluate_section_filter proved equal to the truth of the filter over the merchant\'s own payments and globals+locals (False when not evaluable, raises nothing); '
+            'call-site clauses on the real nested loops of classify_merchants (filter asked once per merchant and view with that merchant\'s transactions and globals; '
+            'listed in exactly that view iff true; no early exit); compute_section_totals; frames syntactically. The documented primitives and whole-run membership '
+            'are checked by the labelled bounded oracle.',
+    'level_note': _BASE_NOTE + ' expr_parser.evaluate is an uninterpreted deterministic function raising at most ExpressionError (C08); primitives months/total/cv/by() are bounded-only.',
+    'technique': 'contract-based deductive verification (symbolic execution with call-site clauses, z3; syntactic frames) + bounded oracle against an independent specification of the primitives',
+}
+
 NOT_APPLICABLE = {}
